@@ -23,17 +23,22 @@ def tlc_graph(ck, data_ids, job, maxname=7, workers=None):
 
 
 def neg_runs(ck):
+    cases = (("DEV remove_data_point refreshes from the parent only", dict(d1=True), "InvFresh", True),
+             ("DEV graft never relabels clashing names", dict(d3=True), None, True),
+             ("two live trees: the host is edited while an extracted subtree is alive (as implemented: copies)", dict(host_edits=True), None, False),
+             ("DEV get_subtree hands out the host's own node payloads", dict(host_edits=True, shared=True), "InvFresh", True))
     jobs = []
-    for i, (label, kw, inv) in enumerate((("DEV remove_data_point refreshes from the parent only", dict(d1=True), "InvFresh"),
-                                          ("DEV graft never relabels clashing names", dict(d3=True), None))):
+    for i, (label, kw, inv, must_fail) in enumerate(cases):
         jobs.append(dict(job="c06_neg%d" % i, module="TreeADT", workers=4, timeout=1500,
                          cfg=tlc.cfg_text(constants=treeadt.consts([0, 1, 2], **kw), invariants=treeadt.INVS, view="view", constraint="NameBound")))
     res = tlc.run_many(jobs)
-    for (label, inv), r in zip((("DEV remove_data_point refreshes from the parent only", "InvFresh"),
-                                ("DEV graft never relabels clashing names", None)), res):
-        ck.add_tlc(label, r, must_fail=True)
-        if not r.violated or (inv and inv not in r.violated):
-            raise tlc.TLCError("deviation not refuted: %s %s" % (label, r.summary()))
+    for (label, kw, inv, must_fail), r in zip(cases, res):
+        ck.add_tlc(label, r, must_fail=must_fail)
+        if must_fail:
+            if not r.violated or (inv and inv not in r.violated):
+                raise tlc.TLCError("deviation not refuted: %s %s" % (label, r.summary()))
+        else:
+            tlc.require_ok(r, label)
 
 
 def make_dist(alpha=0.7):
